@@ -1,13 +1,26 @@
 package tree
 
+import "slices"
+
 func getListEntrySortFunc(parent Entry) func(a, b Entry) int {
 	// return the comparison function
 	return func(a, b Entry) int {
 		keys := parent.GetSchemaKeys()
 		var cmpResult int
 		for _, v := range keys {
-			aLvSlice := a.getChildren()[v].GetHighestPrecedence(LeafVariantSlice{}, false)
-			bLvSlice := b.getChildren()[v].GetHighestPrecedence(LeafVariantSlice{}, false)
+			aKey, aExists := a.getChildren()[v]
+			bKey, bExists := b.getChildren()[v]
+			// the key leafs are not necessarily part of the tree, e.g. if only a
+			// sub-branch of the list entries was loaded. The tree levels of the
+			// entries carry the key values as well, so fall back to these.
+			if !aExists || !bExists {
+				return slices.Compare(a.Path(), b.Path())
+			}
+			aLvSlice := aKey.GetHighestPrecedence(LeafVariantSlice{}, false)
+			bLvSlice := bKey.GetHighestPrecedence(LeafVariantSlice{}, false)
+			if len(aLvSlice) == 0 || len(bLvSlice) == 0 {
+				return slices.Compare(a.Path(), b.Path())
+			}
 
 			aEntry := aLvSlice[0]
 			bEntry := bLvSlice[0]
